@@ -1,6 +1,6 @@
 (* Layer lemmas of C03: tripleToRow + shouldIgnoreTriple against the declarative reading of a clause, and simpleFetch
    against "one row per stored triple whose fixed components match", for each of the eight driver shapes. *)
-From Coq Require Import List Bool.
+From Coq Require Import List Bool ZArith.
 Import ListNotations.
 From BWPlanner Require Import Terms Rows Clause Store Fetch PatternSpec RowsProofs.
 
@@ -54,31 +54,89 @@ Definition binders_checked (bs : list (str * extractor)) (t : triple) : Prop :=
 Lemma binders_checked_tail : forall b bs t, binders_checked (b :: bs) t -> binders_checked bs t.
 Proof. intros b bs t H k x Hin. apply (H k x). right. exact Hin. Qed.
 
-(* ---------- tripleToRow, soundness: every binder got its extraction, earlier cells are kept, nothing else is added *)
+(* cells are compared up to the zone in which an instant is written (cell_equiv); the comparison validBinding uses
+   (same_value: DeepEqual before repair F25, sameValue after) implies it *)
+Lemma cell_equiv_refl0 : forall v, cell_equiv v v = true.
+Proof.
+  destruct v; cbn; auto.
+  - apply str_eqb_refl.
+  - apply node_eqb_true. reflexivity.
+  - unfold pred_key_eqb. rewrite str_eqb_refl. destruct (panchor p); [apply Z.eqb_refl|reflexivity].
+  - apply lit_eqb_true. reflexivity.
+  - apply Z.eqb_refl.
+Qed.
+
+Lemma same_value_equiv : forall e a b, same_value e a b = true -> cell_equiv a b = true.
+Proof.
+  intros e a b H. unfold same_value in H. destruct (fixzone e); [exact H|].
+  apply cell_eqb_true in H. subst. apply cell_equiv_refl0.
+Qed.
+
+Definition sub_equiv (r mu : row) : Prop :=
+  forall k v, get r k = Some v -> exists w, get mu k = Some w /\ cell_equiv v w = true.
+
+(* transitivity / symmetry of cell_equiv (needed here already) *)
+Lemma pred_key_trans0 : forall a b c, pred_key_eqb a b = true -> pred_key_eqb b c = true -> pred_key_eqb a c = true.
+Proof.
+  unfold pred_key_eqb. intros a b c H1 H2.
+  apply andb_prop in H1. destruct H1 as [I1 A1]. apply andb_prop in H2. destruct H2 as [I2 A2].
+  apply str_eqb_true in I1. apply str_eqb_true in I2. rewrite I1, I2, str_eqb_refl. cbn.
+  destruct (panchor a), (panchor b), (panchor c); try discriminate; auto.
+  unfold t_equal in *. apply Z.eqb_eq in A1. apply Z.eqb_eq in A2. apply Z.eqb_eq. congruence.
+Qed.
+
+Lemma cell_equiv_trans0 : forall a b c, cell_equiv a b = true -> cell_equiv b c = true -> cell_equiv a c = true.
+Proof.
+  intros a b c H1 H2. destruct a, b; cbn in H1; try discriminate; destruct c; cbn in H2; try discriminate; cbn; auto.
+  - apply str_eqb_true in H1. apply str_eqb_true in H2. apply str_eqb_true. congruence.
+  - apply node_eqb_true in H1. apply node_eqb_true in H2. apply node_eqb_true. congruence.
+  - eapply pred_key_trans0; eauto.
+  - apply lit_eqb_true in H1. apply lit_eqb_true in H2. apply lit_eqb_true. congruence.
+  - unfold t_equal in *. apply Z.eqb_eq in H1. apply Z.eqb_eq in H2. apply Z.eqb_eq. congruence.
+Qed.
+
+Lemma cell_equiv_sym0 : forall a b, cell_equiv a b = true -> cell_equiv b a = true.
+Proof.
+  intros a b H. destruct a, b; cbn in *; try discriminate; auto.
+  - apply str_eqb_true in H. subst. apply str_eqb_refl.
+  - apply node_eqb_true in H. subst. apply node_eqb_true. reflexivity.
+  - unfold pred_key_eqb in *. apply andb_prop in H. destruct H as [I A]. apply str_eqb_true in I. rewrite I, str_eqb_refl. cbn.
+    destruct (panchor p), (panchor p0); try discriminate; auto. unfold t_equal in *. rewrite Z.eqb_sym. exact A.
+  - apply lit_eqb_true in H. subst. apply lit_eqb_true. reflexivity.
+  - unfold t_equal in *. rewrite Z.eqb_sym. exact H.
+Qed.
+
+(* ---------- tripleToRow, soundness: every binder has (a value equivalent to) its extraction, earlier cells are kept up to
+   equivalence, nothing else is added *)
 Lemma ttr_sound : forall e opt bs t r r', fixoid e = true -> binders_checked bs t ->
   ttr e opt bs t r r = Ok (Some r') ->
-  (forall k x, In (k, x) bs -> exists v, xval opt x t = Some v /\ get r' k = Some v) /\
-  sub_row r r' /\
+  (forall k x, In (k, x) bs -> exists v w, xval opt x t = Some v /\ get r' k = Some w /\ cell_equiv w v = true) /\
+  sub_equiv r r' /\
   (forall k, get r' k <> None -> get r k <> None \/ In k (map fst bs)).
 Proof.
   intros e opt bs t. induction bs as [|[k x] bs IH]; intros r r' Hf Hbc H.
-  - cbn in H. inversion H; subst. split; [intros k x []|]. split; [intros k v Hk; exact Hk|]. intros k Hk. left. exact Hk.
+  - cbn in H. inversion H; subst. split; [intros k x []|]. split.
+    + intros k v Hk. exists v. split; [exact Hk|apply cell_equiv_refl0].
+    + intros k Hk. left. exact Hk.
   - cbn [ttr] in H. rewrite (extract_xval e opt x t Hf (Hbc k x (or_introl eq_refl))) in H.
     destruct (xval opt x t) as [v|] eqn:Xv; [|discriminate].
-    assert (Hstep : ttr e opt bs t (set r k v) (set r k v) = Ok (Some r') /\ (get r k = None \/ get r k = Some v)).
+    assert (Hstep : ttr e opt bs t (set r k v) (set r k v) = Ok (Some r') /\
+                    (get r k = None \/ exists v0, get r k = Some v0 /\ cell_equiv v0 v = true)).
     { destruct (get r k) as [v0|] eqn:G.
-      - destruct (cell_eqb v0 v) eqn:Ce; [|discriminate]. apply cell_eqb_true in Ce. subst v0. split; auto.
+      - destruct (same_value e v0 v) eqn:Ce; [|discriminate]. split; [exact H|]. right. exists v0. split; [reflexivity|].
+        eapply same_value_equiv; eauto.
       - split; auto. }
     destruct Hstep as [Hrec Hg].
     destruct (IH _ _ Hf (binders_checked_tail _ _ _ Hbc) Hrec) as [Hb [Hs Hd]].
-    assert (Hk : get r' k = Some v) by (apply Hs; apply get_set_same).
+    destruct (Hs k v (get_set_same r k v)) as [w [Gw Cw]].
     split.
     + intros k0 x0 [E|Hin].
-      * inversion E; subst. exists v. split; auto.
+      * inversion E; subst. exists v, w. split; [exact Xv|]. split; [exact Gw|apply cell_equiv_sym0; exact Cw].
       * apply Hb. exact Hin.
     + split.
       * intros k0 v0 G0. destruct (str_eq_dec k0 k) as [->|Hne].
-        -- destruct Hg as [Hg|Hg]; rewrite Hg in G0; [discriminate|]. inversion G0; subst. exact Hk.
+        -- destruct Hg as [Hg|[v1 [Hg Cv]]]; rewrite Hg in G0; [discriminate|]. inversion G0; subst.
+           exists w. split; [exact Gw|]. eapply cell_equiv_trans0; eauto.
         -- apply Hs. rewrite get_set_other by exact Hne. exact G0.
       * intros k0 Hk0. destruct (Hd k0 Hk0) as [Hin|Hin].
         -- destruct (str_eq_dec k0 k) as [->|Hne]; [right; left; reflexivity|].
@@ -86,27 +144,27 @@ Proof.
         -- right. right. exact Hin.
 Qed.
 
-(* ---------- tripleToRow, completeness: if some assignment gives every binder its extraction, a row is produced and it
-   is part of that assignment *)
-Lemma ttr_complete : forall e opt bs t mu r, fixoid e = true -> binders_checked bs t ->
-  (forall k x, In (k, x) bs -> exists v, xval opt x t = Some v /\ get mu k = Some v) ->
-  sub_row r mu ->
-  exists r', ttr e opt bs t r r = Ok (Some r') /\ sub_row r' mu.
+(* ---------- tripleToRow, completeness (after repair F25): if some assignment gives every binder a value equivalent to its
+   extraction, a row is produced and it is part of that assignment (up to equivalence) *)
+Lemma ttr_complete : forall e opt bs t mu r, fixoid e = true -> fixzone e = true -> binders_checked bs t ->
+  (forall k x, In (k, x) bs -> exists v w, xval opt x t = Some v /\ get mu k = Some w /\ cell_equiv w v = true) ->
+  sub_equiv r mu ->
+  exists r', ttr e opt bs t r r = Ok (Some r') /\ sub_equiv r' mu.
 Proof.
-  intros e opt bs t mu. induction bs as [|[k x] bs IH]; intros r Hf Hbc Hall Hsub.
+  intros e opt bs t mu. induction bs as [|[k x] bs IH]; intros r Hf Hz Hbc Hall Hsub.
   - exists r. split; [reflexivity|exact Hsub].
-  - destruct (Hall k x (or_introl eq_refl)) as [v [Xv Gm]].
+  - destruct (Hall k x (or_introl eq_refl)) as [v [w [Xv [Gm Cm]]]].
     cbn [ttr]. rewrite (extract_xval e opt x t Hf (Hbc k x (or_introl eq_refl))), Xv.
-    assert (Hsub' : sub_row (set r k v) mu).
+    assert (Hsub' : sub_equiv (set r k v) mu).
     { intros k0 v0 G0. rewrite get_set in G0. destruct (str_eqb k0 k) eqn:E.
-      - apply str_eqb_true in E. subst. inversion G0; subst. exact Gm.
+      - apply str_eqb_true in E. subst. inversion G0; subst. exists w. split; [exact Gm|apply cell_equiv_sym0; exact Cm].
       - apply Hsub. exact G0. }
-    assert (Hall' : forall k0 x0, In (k0, x0) bs -> exists v0, xval opt x0 t = Some v0 /\ get mu k0 = Some v0)
+    assert (Hall' : forall k0 x0, In (k0, x0) bs -> exists v0 w0, xval opt x0 t = Some v0 /\ get mu k0 = Some w0 /\ cell_equiv w0 v0 = true)
       by (intros; apply Hall; right; assumption).
-    destruct (IH (set r k v) Hf (binders_checked_tail _ _ _ Hbc) Hall' Hsub') as [r' [Hr' Hs']].
+    destruct (IH (set r k v) Hf Hz (binders_checked_tail _ _ _ Hbc) Hall' Hsub') as [r' [Hr' Hs']].
     destruct (get r k) as [v0|] eqn:G.
-    + assert (v0 = v) by (apply Hsub in G; congruence). subst v0.
-      rewrite cell_eqb_refl. exists r'. split; assumption.
+    + destruct (Hsub k v0 G) as [w0 [Gw0 Cw0]]. rewrite Gm in Gw0. inversion Gw0; subst w0.
+      unfold same_value. rewrite Hz, (cell_equiv_trans0 v0 w v Cw0 Cm). exists r'. split; assumption.
     + exists r'. split; assumption.
 Qed.
 
@@ -171,9 +229,9 @@ Proof.
 Qed.
 
 (* ---------- C03 layer 1: a stored triple yields row r for clause c  <->  the clause's id parts hold and r gives every
-   binding of the clause the corresponding part of the triple (and nothing else) *)
+   binding of the clause (a value equivalent to) the corresponding part of the triple, and nothing else *)
 Definition row_matches (c : clause) (t : triple) (r : row) : Prop :=
-  (forall k x, In (k, x) (binders c) -> exists v, xval (c_opt c) x t = Some v /\ get r k = Some v) /\
+  (forall k x, In (k, x) (binders c) -> exists v w, xval (c_opt c) x t = Some v /\ get r k = Some w /\ cell_equiv w v = true) /\
   (forall k, get r k <> None -> In k (map fst (binders c))).
 
 Definition row_of (e : cfg) (c : clause) (t : triple) : outcome (option row) :=
@@ -189,13 +247,13 @@ Proof.
   intros k Hk. destruct (Hd k Hk) as [X|X]; [cbn in X; congruence|exact X].
 Qed.
 
-Theorem clause_row_complete : forall e c t mu, fixoid e = true -> binders_checked (binders c) t ->
+Theorem clause_row_complete : forall e c t mu, fixoid e = true -> fixzone e = true -> binders_checked (binders c) t ->
   should_ignore c t = false ->
-  (forall k x, In (k, x) (binders c) -> exists v, xval (c_opt c) x t = Some v /\ get mu k = Some v) ->
-  exists r, row_of e c t = Ok (Some r) /\ row_matches c t r /\ sub_row r mu.
+  (forall k x, In (k, x) (binders c) -> exists v w, xval (c_opt c) x t = Some v /\ get mu k = Some w /\ cell_equiv w v = true) ->
+  exists r, row_of e c t = Ok (Some r) /\ row_matches c t r /\ sub_equiv r mu.
 Proof.
-  intros e c t mu Hf Hbc Si Hall. unfold row_of. rewrite Si. unfold triple_to_row.
-  destruct (ttr_complete e (c_opt c) (binders c) t mu [] Hf Hbc Hall) as [r [Hr Hs]]; [intros k v G; discriminate|].
+  intros e c t mu Hf Hz Hbc Si Hall. unfold row_of. rewrite Si. unfold triple_to_row.
+  destruct (ttr_complete e (c_opt c) (binders c) t mu [] Hf Hz Hbc Hall) as [r [Hr Hs]]; [intros k v G; discriminate|].
   exists r. split; [exact Hr|]. split; [|exact Hs].
   destruct (ttr_sound _ _ _ _ _ _ Hf Hbc Hr) as [Hb [_ Hd]]. split; [exact Hb|].
   intros k Hk. destruct (Hd k Hk) as [X|X]; [cbn in X; congruence|exact X].
@@ -208,7 +266,7 @@ Proof.
   - eexists; reflexivity.
   - pose proof (binders_checked_tail _ _ _ Hbc) as Hbc'.
     cbn [ttr]. rewrite (extract_xval e opt x t Hf (Hbc k x (or_introl eq_refl))). destruct (xval opt x t) as [v|]; [|eexists; reflexivity].
-    destruct (get r k) as [v0|]; [destruct (cell_eqb v0 v); [apply IH; assumption|eexists; reflexivity]|apply IH; assumption].
+    destruct (get r k) as [v0|]; [destruct (same_value e v0 v); [apply IH; assumption|eexists; reflexivity]|apply IH; assumption].
 Qed.
 
 Lemma row_of_total : forall e c t, fixoid e = true -> binders_checked (binders c) t -> exists o, row_of e c t = Ok o.
